@@ -89,6 +89,15 @@ def check_versioned(case):
     o = libx.call('from_bytes', B.CBase58Data.from_bytes, p, v)[1]
     if str(o) != want:
         raise Violation('check/text', 'str(from_bytes(%s, %d)) = %r expected %r' % (p.hex()[:40], v, str(o)[:50], want[:50]))
+    # an existing object handed back as the payload of ANOTHER version: a new value, the first one untouched; the same
+    # payload printed under two versions gives two texts (no memo keyed by the payload alone)
+    v2 = (v + 1 + case.get('dv', 0) % 255) % 256
+    o2 = libx.call('from_bytes-of-object', B.CBase58Data.from_bytes, o, v2)[1]
+    o3 = libx.call('from_bytes', B.CBase58Data.from_bytes, p, v2)[1]
+    if str(o2) != R.check_encode(v2, p) or str(o3) != R.check_encode(v2, p) or o2.nVersion != v2:
+        raise Violation('check/reversion', 'the payload of a version-%d object re-wrapped as version %d prints as %r' % (v, v2, str(o2)[:50]))
+    if o.nVersion != v or str(o) != want or bytes(o) != p:
+        raise Violation('check/reversion-aliases', 'wrapping an existing object under version %d changed the original (version %r, text %r)' % (v2, o.nVersion, str(o)[:50]))
     d = libx.call('cbase58data', B.CBase58Data, want)[1]
     if d.nVersion != v or bytes(d) != p or d.to_bytes() != p:
         raise Violation('check/roundtrip', 'text form of (%d, %s) decodes to (%r, %s)' % (v, p.hex()[:40], d.nVersion, bytes(d).hex()[:40]))
